@@ -146,6 +146,16 @@ struct Extractor {
     O["pk"] = std::move(PK);
     O["pn"] = std::move(PN);
     O["variadic"] = FD->isVariadic();
+    if (auto *TA = FD->getTemplateSpecializationArgs()) {
+      json::Array TAs;
+      for (auto &A : TA->asArray()) {
+        std::string S;
+        llvm::raw_string_ostream OS(S);
+        A.print(Ctx.getPrintingPolicy(), OS, true);
+        TAs.push_back(OS.str());
+      }
+      O["targs"] = std::move(TAs);
+    }
     if (auto *M = dyn_cast<CXXMethodDecl>(FD)) {
       O["method"] = true;
       O["mconst"] = M->isConst();
